@@ -26,7 +26,7 @@ static void c05_run(vf_case *c)
     vf_snap idx0; snap_sparse(P, &D.A, &idx0, NULL);
     const NCformat *st = D.A.Store; ldc *A0 = malloc(sizeof(ldc) * (size_t)(A.nnz + 1)); for (int_t k = 0; k < A.nnz; k++) A0[k] = P->get(st->nzval, (size_t)k);
     int use_ws = rng_bool(r, 0.25); void *work = NULL;
-    if (use_ws) { D.lwork = (int_t)generous_lwork(P, n, A.nnz); work = malloc((size_t)D.lwork); D.work = work; }
+    if (use_ws) { D.lwork = (int_t)generous_lwork(P, n, A.nnz); work = vf_ws_alloc(c, (size_t)D.lwork); D.work = work; }
 
     xdrv_call(&D, &xo);
 
